@@ -25,9 +25,9 @@ RULE = ("landscapes built by the real classes from generated diagrams (1-7 bars;
         "segment or at least two depths; distinct by digest of (operation, p, critical pairs)")
 ASSUMPTIONS = ["critical pairs / grid values are finite floats (no NaN/inf inside a landscape)",
                "np.linspace(start, stop, num_steps) is passed to the model as data (its contract belongs to C08)",
-               "natural p: code and Rat model are compared on the p-th power with 1e-9 relative tolerance plus the "
-               "first-order rounding bound of the code's own formula (slope*x+b recomputation and ev_x1-ev_x0 "
-               "cancellation); cases where that bound exceeds 1e-9 relative are counted as ill_conditioned",
+               "natural p: code and Rat model are compared on the p-th power with 1e-9 relative tolerance; sign-crossing "
+               "segments add the first-order rounding bound of the code's slope*x+b recomputation (8 eps (|slope x|+|y|) "
+               "on each end value); cases where that bound exceeds 1e-9 relative are counted as ill_conditioned",
                "real p: np.float64 ** float is C pow, as Float.pow in the model",
                "stability stream: diagrams on which the C03 repeated-bar shortcut fires (known finding) are skipped and counted"]
 TOL = 1e-9
@@ -224,13 +224,14 @@ def seg_stats(ctx, cps):
 
 
 def rounding_bound(p, cps):
-    """first-order forward error of the code's formula for the p-th power (floats)"""
+    """first-order forward error (floats) of the only ill-conditioned step left in the code's formula: the
+    sign-crossing branch recomputes the end values as slope*x + b with b = y0 - slope*x0, which loses
+    |slope*x|/|y| digits.  Flat and one-signed segments (stable since fix b342827) get no allowance."""
     tot = 0.0
     try:
         for l in cps:
             for (x0, y0), (x1, y1) in zip(l, l[1:]):
-                if y0 == y1:
-                    tot += 8 * EPS * (p + 2) * abs(y0) ** p * abs(x1 - x0)
+                if y0 == y1 or not ((y0 < 0 < y1) or (y1 < 0 < y0)):
                     continue
                 if x1 == x0:
                     return math.inf
@@ -240,8 +241,7 @@ def rounding_bound(p, cps):
                 ax = max(abs(x0), abs(x1))
                 ay = max(abs(y0), abs(y1))
                 dy = 8 * EPS * (s * ax + ay)
-                ev = (abs(y0) ** (p + 1) + abs(y1) ** (p + 1)) / (s * (p + 1))
-                tot += 16 * EPS * (p + 4) * ev + 2 * (abs(y0) ** p + abs(y1) ** p) * dy / s
+                tot += 2 * (abs(y0) ** p + abs(y1) ** p) * dy / s
     except OverflowError:
         return math.inf
     return tot
@@ -363,6 +363,10 @@ def run(ctx):
         [[[0.0, 0.0], [1.0, 1.0], [3.0, 1.0], [4.0, 0.0]]],
         [[[0.0, 0.0], [1.0, -1.0], [3.0, -1.0], [4.0, 0.0]]],
         [[[0.0, 0.0], [2.0, -3.0], [2.5, 0.5], [4.0, 0.0]], [[1.0, 0.0], [2.0, 0.25], [3.0, 0.0]]],
+        # nearly flat segments (end values one ulp apart): regression inputs of fix b342827
+        [[[0.0, 0.0], [1.0, 0.3], [2.0, 0.30000000000000004], [3.0, 0.0]]],
+        [[[0.0, 0.0], [1.0, 1.0], [2.0, 1.0000000000000002], [3.0, 0.0]]],
+        [[[0.0, 0.0], [1.0, -0.1], [2.0, -0.10000000000000002], [2.5, -0.1], [3.0, 0.0]]],
     ]
     for cps in corpus:
         L = ex.PersLandscapeExact(critical_pairs=cps, hom_deg=0)
